@@ -443,14 +443,14 @@ with rd_arr (p : path) (fuel : nat) (cnt : N) (bs : bytes) (acc : list gval) {st
   match fuel with
   | O => Err EFuel
   | S f =>
-      if cnt =? 0 then Ok (GArr (rev acc), bs)
+      if cnt =? 0 then Ok (GArr (rev_append acc []), bs)
       else '(v, r) <- rd_intf p f bs ;; rd_arr p f (cnt - 1) r (v :: acc)
   end
 with rd_map (p : path) (fuel : nat) (cnt : N) (bs : bytes) (acc : list (bytes * gval)) {struct fuel} : res (gval * bytes) :=
   match fuel with
   | O => Err EFuel
   | S f =>
-      if cnt =? 0 then Ok (GMap (rev acc), bs)
+      if cnt =? 0 then Ok (GMap (rev_append acc []), bs)
       else
         '(k, r1) <- rd_rec_key p bs ;;
         '(v, r2) <- rd_intf p f r1 ;;
